@@ -119,6 +119,10 @@ def _run(ctx, with_push, replay=None):
             if _nontrivial(s) and len(ctx.samples) < 3:
                 ctx.add_samples([{"cfg": s["cfg"], "script": s["steps"], "observed": byid[s["id"]]}], limit=3)
                 break
+    if not with_push and ctx.tier != "quick" and not replay:
+        # thorough tier of C02: the recorded executions of the repository's own scenario tests
+        import scenario_traces
+        scenario_traces.run_part(ctx)
     ctx.extra["bounds"] = {"scripts_per_window": {("W%d_N%d" % k): len(v) for k, v in groups.items()}}
     ctx.assumptions += ["symbolic view of keys/payloads: one abstract message per (device, counter); bytes come from VERIF_SEED",
                         "CIDs passed to the store are always defined and are the identifier of the presented envelope",
